@@ -7,6 +7,9 @@
 #include <set>
 
 #include "engine_base.hpp"
+#include <limits>
+#include <set>
+
 #include "mon/cmp.hpp"
 #include "vec_common.hpp"
 
@@ -178,6 +181,71 @@ struct HintGrid : EngineBase {
     }
     if (!g_cut) end_history_ok();
   }
+  // The library's DEFAULT comparator over integral keys at the extremes of their range. Every other configuration uses the harness' own comparator
+  // types, so code specialised on std::less<T> (or on integral T) is out of their reach; differences and sums of such keys wrap. All subsets of six
+  // extreme values x every value of the domain and its neighbours x every hint x three call forms, judged against std::set<T> and plain insertion.
+  template <class T>
+  void integral_extremes(const char *tname) {
+    typedef amc::FlatSet<T> FS;  // default comparator, default underlying vector
+    const T lo = std::numeric_limits<T>::min(), hi = std::numeric_limits<T>::max();
+    const T mid = static_cast<T>(lo / 2 + hi / 2);
+    const T dom[6] = {lo, static_cast<T>(lo + 1), static_cast<T>(mid), static_cast<T>(mid + 1), static_cast<T>(hi - 1), hi};
+    std::vector<T> values;
+    for (int i = 0; i < 6; ++i) { values.push_back(dom[i]); if (dom[i] != hi) values.push_back(static_cast<T>(dom[i] + 1)); if (dom[i] != lo) values.push_back(static_cast<T>(dom[i] - 1)); }
+    values.push_back(static_cast<T>(mid / 2)); values.push_back(static_cast<T>(mid + (hi - mid) / 2));
+    for (int mask = 0; mask < 64 && !g_cut; ++mask) {
+      std::set<T> base;
+      for (int i = 0; i < 6; ++i) if (mask & (1 << i)) base.insert(dom[i]);
+      const size_t n = base.size();
+      for (size_t vi = 0; vi < values.size() && !g_cut; ++vi) {
+        const T x = values[vi];
+        for (size_t hint = 0; hint <= n && !g_cut; ++hint)
+          for (int form = 0; form < 3 && !g_cut; ++form) {
+            std::set<T> m(base);
+            const bool present = m.count(x) != 0;
+            const long lb = static_cast<long>(std::distance(m.begin(), m.lower_bound(x)));
+            set_op(form == 0 ? "insert(hint,const&)" : form == 1 ? "insert(hint,&&)" : "emplace_hint", std::string("std::less<") + tname + ">", std::string(present ? "present," : "absent,") + (static_cast<long>(hint) == lb ? "hint=lb" : static_cast<long>(hint) < lb ? "hint<lb" : "hint>lb"),
+                   fmt("mask=%d value#%zu hint=%zu", mask, vi, hint));
+            FS *s1, *s2;
+            { MonScope mm; s1 = static_cast<FS *>(malloc(sizeof(FS))); s2 = static_cast<FS *>(malloc(sizeof(FS))); }
+            window([&] { new (s1) FS(base.begin(), base.end()); });
+            window([&] { new (s2) FS(base.begin(), base.end()); });
+            long got = -1, got2 = -1;
+            bool ins2 = false;
+            T y = x;
+            if (form == 0) window([&] { got = s1->insert(s1->begin() + hint, x) - s1->begin(); });
+            else if (form == 1) window([&] { got = s1->insert(s1->begin() + hint, std::move(y)) - s1->begin(); });
+            else window([&] { got = s1->emplace_hint(s1->begin() + hint, x) - s1->begin(); });
+            if (threw) { violation("C12", "hint.unexpected_exception", threw_what); }
+            window([&] { auto r = s2->insert(x); got2 = r.first - s2->begin(); ins2 = r.second; });
+            if (!g_cut) {
+              MonScope mm;
+              m.insert(x);
+              std::vector<T> a(s1->begin(), s1->end()), b(s2->begin(), s2->end()), c(m.begin(), m.end());
+              if (a != c || b != c) violation("C12", "hint.differs_from_plain_insert", fmt("default comparator over %s: hinted insertion, plain insertion and std::set disagree (sizes %zu / %zu / %zu) for value #%zu, hint %zu, subset %d", tname, a.size(), b.size(), c.size(), vi, hint, mask));
+              else if (got != got2 || ins2 == present) violation("C12", "hint.returned_iterator", fmt("default comparator over %s: hinted insertion returns position %ld, plain insertion %ld (inserted=%d, present=%d)", tname, got, got2, ins2, present));
+            }
+            window([&] { s1->~FS(); });
+            window([&] { s2->~FS(); });
+            MonScope mm;
+            free(s1);
+            free(s2);
+          }
+      }
+    }
+  }
+  void run_integral(long hidx) {
+    begin_history(0, hidx, 0xC12);
+    integral_extremes<uint64_t>("uint64_t");
+    if (!g_cut) integral_extremes<int64_t>("int64_t");
+    if (!g_cut) integral_extremes<long long>("long long");
+    if (!g_cut) integral_extremes<uint32_t>("uint32_t");
+    if (!g_cut) integral_extremes<int32_t>("int32_t");
+    if (!g_cut) integral_extremes<int16_t>("int16_t");
+    if (!g_cut) integral_extremes<uint8_t>("uint8_t");
+    if (!g_cut) integral_extremes<signed char>("signed char");
+    if (!g_cut) end_history_ok();
+  }
 };
 
 }  // namespace vf
@@ -192,12 +260,13 @@ int main(int argc, char **argv) {
   static HintGrid<Elem, Cmp, VecT> eng;
   eng.K = a.has("--k9") ? 9 : 6;
   const long masks = 1L << eng.K;
-  long total = masks + 2;  // + two large-set sweeps
+  long total = masks + 3;  // + two large-set sweeps + the default comparator over integral keys
   long to = a.to < total ? a.to : total;
   long h = a.from;
   for (; h < to; ++h) {
     if (h < masks) eng.run_mask(h);
-    else eng.run_big(h == masks ? 1500 : 5200, h);
+    else if (h < masks + 2) eng.run_big(h == masks ? 1500 : 5200, h);
+    else eng.run_integral(h);
     if (g_cut) break;
   }
   eng.counters["masks_total"] = masks;
